@@ -1,0 +1,17 @@
+//go:build verif
+
+package main
+
+// Contracts for the verification machinery in /verif (see /verif/DESIGN.md).
+// This file contains only comments; it is compiled to nothing.
+
+//@ prop C19
+
+//@ func align
+//@   requires x >= 0 && a > 0
+//@   ensures  [ge] result >= x
+//@   ensures  [lt] result < x + a
+//@   ensures  [mult] result % a == 0
+//@   pure
+
+//@ ghost offspec(fs []st.Field, i int) int64 = i <= 0 ? 0 : offspec(fs, i-1) + fs[i-1].Size
